@@ -64,6 +64,7 @@ fn gen_cfg(t: &mut Tape) -> Cfg {
             fingerprint: None,
             cohort: [t.option(|t| t.ident(5)), t.option(|t| t.ident(5)), t.option(|t| t.ident(5))],
             days: t.option(|t| t.u32_biased()),
+            extras: vec![],
         })
         .collect();
     let kinds: Vec<usize> = (0..napps).map(|_| t.weighted(&[4, 3, 2, 1, 1])).collect();
